@@ -212,6 +212,10 @@ def run_tree_property(ctx: Ctx, modname: str, spec: TreeSpec) -> Report:
         for rep in pool_imap_unordered(_tagged_payload_worker, [(modname, tcases[i::16]) for i in range(16) if tcases[i::16]], chunksize=1):
             total.merge(rep)
         total.extra["tagged_payload_cases"] = len(tcases)
+        acases = array_sweep_cases(spec)
+        for rep in pool_imap_unordered(_array_sweep_worker, [(modname, acases[i::32]) for i in range(32) if acases[i::32]], chunksize=1):
+            total.merge(rep)
+        total.extra["array_sweep_cases"] = len(acases)
     total.extra["classes_covered"] = len(cds)
     total.extra["examples_per_class"] = n
     total.extra["profile"] = spec.profile.name
@@ -421,6 +425,73 @@ def _tagged_payload_worker(task) -> Report:
     return rep
 
 
+# ---- arrays of MANY MINIMAL items (empty strings, zeros, zero structs): the smallest encoding an array of n items can have
+ARRAY_SWEEP_LENGTHS = (127, 128, 255, 256, 257, 1023, 1024, 1025, 4096, 16383, 16384)
+
+
+def array_sweep_cases(spec: TreeSpec) -> list[tuple[str, str, int, int]]:
+    """(class, top-level array field, length, flavour) for the first two classes of each (flexible?, item kind, nullable?);
+    flavour 0 = minimal items, 1 = one-character / value-1 items"""
+    seen: Counter = Counter()
+    out = []
+    for cls in D.all_classes():
+        cd = D.describe(cls)
+        if spec.class_filter and not spec.class_filter(cd):
+            continue
+        for f in cd.fields:
+            if not f.array or f.tag is not None:
+                continue
+            shape = (cd.flexible, f.kind, f.nullable)
+            if seen[shape] >= 2:
+                continue
+            seen[shape] += 1
+            for n in ARRAY_SWEEP_LENGTHS:
+                if f.kind == "struct" and n > 4096:
+                    continue
+                out.append((cd.path, f.name, n, 0))
+                if f.kind in ("string", "bytes", "int32", "int64", "int16", "int8"):
+                    out.append((cd.path, f.name, n, 1))
+    return out
+
+
+def array_sweep_tree(cd: D.ClassDesc, fname: str, n: int, flavour: int) -> dict:
+    from .refcodec import ZERO_UUID, zero_tree
+
+    f = next(x for x in cd.fields if x.name == fname)
+    if f.kind == "struct":
+        item = zero_tree(f.struct)
+    elif f.kind in ("string", "bytes", "records"):
+        item = b"a" if flavour else b""
+    elif f.kind == "uuid":
+        item = bytes(15) + b"\x01"
+    elif f.kind == "float64":
+        item = bytes(8)
+    else:
+        item = 1 if flavour else 0
+    tree = zero_tree(cd)
+    tree[fname] = [item] * n
+    return tree
+
+
+def _array_sweep_worker(task) -> Report:
+    modname, cases = task
+    spec = importlib.import_module(modname).SPEC
+    rep = Report(prop=spec.prop, level=spec.level, rule=spec.rule)
+    NOTES.clear()
+    for path, fname, n, flavour in cases:
+        cd = D.describe(D.resolve(path))
+        if spec.reset is not None:
+            spec.reset()
+        tree = array_sweep_tree(cd, fname, n, flavour)
+        rep.evaluations += 1
+        rep.labels["array_sweep"] += 1
+        rep.nontrivial.add(case_hash((path, fname, n, flavour)))
+        for sig, msg in guarded_check(spec, cd, tree, spec.sweep_extra):
+            rep.add_failure(Failure(signature=sig, message=f"[array {fname} of {n} {'minimal' if not flavour else 'one-unit'} items] {msg}"[:4000],
+                                    replay={"class": path, "array_sweep": [fname, n, flavour], "extra": _extra_json(spec.sweep_extra)}, size=n))
+    return rep
+
+
 def size_sweep_tasks(modname: str, spec: TreeSpec) -> list:
     tasks = []
     for path, fpath, big in size_sweep_targets(spec):
@@ -432,6 +503,10 @@ def size_sweep_tasks(modname: str, spec: TreeSpec) -> list:
 
 
 def replay_tree_case(spec: TreeSpec, case: dict) -> list:
+    if "array_sweep" in case:
+        cd = D.describe(D.resolve(case["class"]))
+        fname, n, flavour = case["array_sweep"]
+        return guarded_check(spec, cd, array_sweep_tree(cd, fname, n, flavour), extra_from_json(case.get("extra")))
     if "sweep" in case:
         cd = D.describe(D.resolve(case["class"]))
         fpath, n = tuple(case["sweep"]["path"]), case["sweep"]["size"]
